@@ -652,8 +652,8 @@ func TestC30(t *testing.T) {
 	)
 	// Replay: the state of a case depends on all earlier cases, so a replay file
 	// re-runs the whole (seeded, deterministic) sequence of its tier and seed.
-	c30Phase1(t, r, r.N(1500, 25000))
-	c30Phase2(t, r, r.N(600, 10000))
+	c30Phase1(t, r, r.N(1500, 20000))
+	c30Phase2(t, r, r.N(600, 8000))
 	if r.Replay() != nil {
 		r.Finish(0)
 		return
